@@ -512,8 +512,9 @@ class C09(LockCheck):
 
 
 class C10(LockCheck):
-    lean_module = 'CppUtil.Props.C10'
-    theorems = ['CppUtil.Props.c10_no_other_sixx_pess', 'CppUtil.Props.c10_no_other_sixx_opt',
+    lean_module = 'CppUtil.Props.C10Client'
+    theorems = ['CppUtil.Props.c10_client_no_other_sixx_pess', 'CppUtil.Props.c10_client_no_other_sixx_opt',
+                'CppUtil.Props.c10_no_other_sixx_pess', 'CppUtil.Props.c10_no_other_sixx_opt',
                 'CppUtil.Props.c10_no_gap', 'CppUtil.Props.c10_upgrade_alone_pess',
                 'CppUtil.Props.c10_upgrade_alone_opt', 'CppUtil.Props.c10_mcs']
     categories = ['excl']
